@@ -25,5 +25,9 @@ Definition c17_ok (binding : bool) (r_fault : cresult) (vouches_after_fault curr
   && match r_rec with Success | UpToDate => true | _ => false end
   && current_after_rec && record_as_fresh.
 
+(* recorded class C17-1: the failing write truncated its file (fault after a successful open) while the record
+   equals the current fingerprint - the empty file then satisfies the presence test of the next run *)
+Definition c17_kf_trunc (truncating record_matched : bool) : bool := truncating && record_matched.
+
 Extraction Language OCaml.
-Extraction "tt_c17.ml" c17_trace c17_fault_index c17_ok.
+Extraction "tt_c17.ml" c17_trace c17_fault_index c17_ok c17_kf_trunc.
